@@ -166,17 +166,17 @@ func (e *endpoint) Open() (net.Conn, error) {
 }
 
 type conn struct {
-	name                   string
-	op                     simkit.Op
-	clientLink, serverLink *simkit.Link
-	dialed                 chan struct{}
-	paired, dialFailed     bool
-	clientGot, serverGot   []byte
-	clientEOF, serverEOF   bool
-	clientErr, serverErr   error
-	clientDone, serverDone bool
-	clientSent, serverSent int
-	faulted                bool
+	name                       string
+	op                         simkit.Op
+	clientLink, serverLink     *simkit.Link
+	dialed                     chan struct{}
+	paired, dialFailed         bool
+	clientGot, serverGot       []byte
+	clientEOF, serverEOF       bool
+	clientErr, serverErr       error
+	clientDone, serverDone     bool
+	clientSent, serverSent     int
+	faulted                    bool
 	clientPhases, serverPhases bool
 	// simulated times of half-closes and end-of-stream probes (-1 = never)
 	cwAt, probeStart, probeEnd map[byte]time.Duration
@@ -203,16 +203,16 @@ func (h *harness) rendezvous(c *conn, server bool) {
 }
 
 type harness struct {
-	s        *simkit.Sim
-	plan     *simkit.Plan
-	mu       sync.Mutex
-	incoming chan *conn
-	conns    []*conn
+	s                       *simkit.Sim
+	plan                    *simkit.Plan
+	mu                      sync.Mutex
+	incoming                chan *conn
+	conns                   []*conn
 	accepted, dials, paired int
-	acceptedConn *conn
-	sourceEP *endpoint
-	disturbed bool // a pause/terminate/dial failure/reset happened
-	pendingClosedCheck string
+	acceptedConn            *conn
+	sourceEP                *endpoint
+	disturbed               bool // a pause/terminate/dial failure/reset happened
+	pendingClosedCheck      string
 }
 
 func (h *harness) linkOpts(key string) simkit.LinkOpts {
